@@ -1,6 +1,7 @@
 import Log4rsModel.Roller.LemmasHist
 import Log4rsModel.Roller.LemmasName
 import Log4rsModel.Roller.LemmasBg
+import Log4rsModel.Roller.LemmasFinal
 /-
 C08 — A failed or interrupted rotation loses no acknowledged data and is recoverable.
 Only property theorems and non-vacuity examples; helpers are in Roller/LemmasCrash.lean.
@@ -12,11 +13,28 @@ arbitrary disk (gaps, left-overs of earlier failures), every window size, every 
 
 The continuation clause (`C08_continuation_statement`) is a theorem for the code as it is since
 the fix b8295bc (`C08_continuation`, both open modes) and is extended to arbitrary continuation
-histories (`C08_continuation_any_history`, `C08_history_gap_free`). Before the fix it was false
+histories (`C08_continuation_any_history`, `C08_history_gap_free_partial`). Before the fix it was false
 for `append(false)` (defect F10): `C08_truncate_reopen_loses_data_unfixed` keeps the negation for
 the old open-option logic (`truncateEveryReopen = true`) on its 3-operation witness.
-Process death is modelled at step boundaries only; torn writes inside a step, the cross-mount
-copy+delete fallback and failures of `open`/`write` themselves are outside the model.
+Which theorem covers which point of a rotation:
+  * step boundaries (before each shift, before the final step, after it): `C08_crash_safe` (death)
+    and `C08_fault_safe` (a step that fails without having done anything);
+  * INSIDE the final step, a fault with a partial effect (`move_file`: rename refused, copy done,
+    source not removable; compression: copy done, source not removable): safe exactly when the
+    failing step removes its destination again — `C08_fault_safe_partial_effect`,
+    `C08_partial_final_safe` (the code since the repair of `C08/move-fallback-duplicates`; the
+    compressing arms since ec0831e); leaving the destination is unsafe:
+    `C08_move_fallback_duplicates_unfixed` (negation on a witness);
+  * INSIDE the final step, process death after the destination is written: the statement is FALSE
+    of the code — `C08_crash_inside_compress_duplicates` (negation on a witness; known finding
+    `C08/crash-inside-compress-duplicates`);
+  * a RESTARTED `append(false)` appender after an interrupted rotation truncates the chunk the
+    completed rotation would retain: `C08_restart_after_interrupted_partial` holds for append mode,
+    `C08_truncate_restart_loses_interrupted_chunk` is the negation of the unrestricted statement
+    (known finding `C08/truncate-restart-after-interrupted-roll`); `C08_history_gap_free_partial`
+    carries the same restriction as its visible hypothesis `hr`.
+Torn writes inside the copy, failures of `open`/`write` themselves and a partial effect of a SHIFT
+(copy fallback of a shift whose source cannot be removed) are outside the model.
 -/
 namespace Log4rs.Roller
 open Log4rs.Str
@@ -209,11 +227,13 @@ theorem C08_continuation_any_history (c : AppCfg) (dec : Bytes → Bytes) (st : 
     fun rec f => stm_rotating c dec f rec stN htr hg hc hinj hfa hdec hN,
     fun rec => stm_rotating_nofault c dec rec stN htr hg hc hfa hN⟩
 
-/-- Gap-free suffix over whole histories: for every history of appends (plain or rotating, with
-arbitrary faults) — and restarts, when the appender is in append mode — the stream read back from
+/-- Gap-free suffix over whole histories — PARTIAL: restarts are covered in append mode only
+(hypothesis `hr`); for `append(false)` the unrestricted statement is false
+(`C08_truncate_restart_loses_interrupted_chunk`). For every history of appends (plain or rotating,
+with arbitrary faults) — and restarts, when the appender is in append mode — the stream read back from
 disk is a suffix of "the stream at the beginning followed by every record written": nothing is
 lost from the middle, reordered or duplicated, however many rotations failed on the way. -/
-theorem C08_history_gap_free (c : AppCfg) (dec : Bytes → Bytes) (st : AppState) (hist : List HOp)
+theorem C08_history_gap_free_partial (c : AppCfg) (dec : Bytes → Bytes) (st : AppState) (hist : List HOp)
     (htr : c.truncateEveryReopen = false)
     (hg : c.roller.base + c.roller.count ≤ U32_MOD) (hc : c.roller.count ≠ 0)
     (hinj : NamesInj c.roller) (hfa : FileApart c.roller c.file)
@@ -275,6 +295,119 @@ example :
     (appendOp (wCfg false) (fun _ => false) false [3] (appendOp (wCfg false) wFault true [2] wState).2).2.disk.get? wFile
       = some [1, 2, 3] := by decide
 end Witness
+
+/-! ### inside the final step: faults with a partial effect, and process death -/
+
+/-- Fault safety extended to a fault WITH AN EFFECT: the final step has written slot `base` (copy
+fallback of `move_file`, or the compressing copy), cannot remove the rolled file, and removes what
+it wrote again. For every disk, window, compression: the disk it leaves reads as a suffix of the
+reading at the start and keeps everything the completed rotation retains (with each retained chunk
+under a managed name or the active path). -/
+theorem C08_fault_safe_partial_effect (r : RollerCfg) (file : Path) (dec : Bytes → Bytes) (d : Disk)
+    (hinj : NamesInj r) (hfa : FileApart r file) (hdec : ∀ x, dec (r.enc x) = x)
+    (hc : r.count ≠ 0) :
+    readBack dec r file (failedFinal true r file d) <:+ readBack dec r file d ∧
+    retain dec r file d <:+ readBack dec r file (failedFinal true r file d) ∧
+    ∀ y ∈ retain dec r file d,
+      (∃ j z, j < r.count ∧ slot r (failedFinal true r file d) (r.base + j) = some z ∧ dec z = y) ∨
+        (failedFinal true r file d).get? file = some y := by
+  obtain ⟨h1, h2⟩ := failedFinal_discard_safe hinj hfa dec hdec hc d
+  exact ⟨h1, h2, fun y hy => (mem_readBack dec r file _ y).1 (h2.subset hy)⟩
+
+/-- The guarantee for a plain final move that fails half-way, with the behaviour of the failing
+step as a parameter: `discard = true` — the copy is removed again; `false` — it stays. -/
+def C08_partial_final_statement (discard : Bool) : Prop :=
+  ∀ (r : RollerCfg) (file : Path) (d : Disk),
+    NamesInj r → FileApart r file → r.count ≠ 0 → r.comp = .none →
+    readBack id r file (failedFinal discard r file d) <:+ readBack id r file d ∧
+      retain id r file d <:+ readBack id r file (failedFinal discard r file d)
+
+/-- the code since the repair (`FinalCfg.moveDiscardsCopy = true`) -/
+theorem C08_partial_final_safe : C08_partial_final_statement true := by
+  intro r file d hinj hfa hc hcomp
+  have hdec : ∀ x, id (r.enc x) = x := by intro x; simp [RollerCfg.enc, hcomp]
+  exact failedFinal_discard_safe hinj hfa id hdec hc d
+
+/-- the same appender continues after such a failure as after any failed rotation: the state is
+`Good`, so `C08_continuation_any_history` applies to it -/
+theorem C08_partial_final_continues (f : FinalCfg) (c : AppCfg) (rec : Bytes) (st : AppState) :
+    (appendOpPartial f c rec st).1 = .err ∧ (appendOpPartial f c rec st).2.writerOpen = false := by
+  unfold appendOpPartial processRollPartial
+  cases c.pre <;> exact ⟨rfl, rfl⟩
+
+/-- Before the repair the statement was false: a window of two, no archive yet, active file `[1]`:
+the failed move leaves `[1]` in slot 0 AND at the active path — the reading `[1],[1]` is not a
+suffix of `[1]` (finding `C08/move-fallback-duplicates`). -/
+theorem C08_move_fallback_duplicates_unfixed : ¬ C08_partial_final_statement false := by
+  intro h
+  have := (h (mkRoller id id wPat 0 2) wFile ⟨[(wFile, [1])]⟩
+    (fun i j e => substIdx_decimal_inj wPat (by decide) i j e) (wFileApart true)
+    (by decide) rfl).1
+  revert this
+  decide
+
+/-- the roller of the witness below: the names of `wPat`, gzip (the codec is the identity here,
+as in the driver, whose observer decodes the archives) -/
+def wGz : RollerCfg := { nameOf := name id wPat, base := 0, count := 2, comp := .gzip, codec := id }
+
+/-- C08's crash clause read for EVERY point of the rotation, including the point inside the final
+step where slot `base` is written and the rolled file not yet removed. -/
+def C08_crash_inside_final_statement : Prop :=
+  ∀ (r : RollerCfg) (file : Path) (dec : Bytes → Bytes) (d : Disk),
+    NamesInj r → FileApart r file → (∀ x, dec (r.enc x) = x) → r.count ≠ 0 →
+    readBack dec r file (midFinal r file d) <:+ readBack dec r file d
+
+/-- …which is false of the code (known finding `C08/crash-inside-compress-duplicates`): gzip,
+window of two, active file `[1]`: the image holds `[1]` in slot 0 and at the active path.
+`C08_crash_safe` covers the step boundaries only. -/
+theorem C08_crash_inside_compress_duplicates : ¬ C08_crash_inside_final_statement := by
+  intro h
+  have := h wGz wFile id ⟨[(wFile, [1])]⟩
+    (fun i j e => substIdx_decimal_inj wPat (by decide) i j e) (wFileApart true)
+    (fun x => rfl) (by decide)
+  revert this
+  decide
+
+/-- and nothing repairs it: the restarted appender (append mode) continues the active file, and its
+next unobstructed rotation archives the same chunk again — the reading is `[1],[1,2]` -/
+theorem C08_crash_inside_compress_archived_twice :
+    let c : AppCfg := { mode := .append, pre := false, file := wFile, roller := wGz }
+    let st := restartOp c (midFinal wGz wFile ⟨[(wFile, [1])]⟩)
+    readBack id wGz wFile (appendOp c (fun _ => false) true [2] st).2.disk = [[1], [1, 2]] := by
+  decide
+
+/-! ### a restarted appender after an interrupted rotation -/
+
+/-- the statement's "or a restarted one": after a process death at any step boundary, the restarted
+appender still has on disk what the completed rotation would retain -/
+def C08_restart_after_interrupted_statement : Prop :=
+  ∀ (c : AppCfg) (d : Disk) (k : Nat),
+    c.truncateEveryReopen = false → NamesInj c.roller → FileApart c.roller c.file →
+    c.roller.count ≠ 0 → c.roller.comp = .none →
+    flat (retain id c.roller c.file d) <:+
+      stm id c (restartOp c (crashAfter c.roller c.file k d)).disk
+
+/-- PARTIAL: it holds for appenders in append mode (every decoder and compression) -/
+theorem C08_restart_after_interrupted_partial (c : AppCfg) (dec : Bytes → Bytes) (d : Disk) (k : Nat)
+    (hm : c.mode = .append)
+    (hinj : NamesInj c.roller) (hfa : FileApart c.roller c.file)
+    (hdec : ∀ x, dec (c.roller.enc x) = x) (hc : c.roller.count ≠ 0) :
+    flat (retain dec c.roller c.file d) <:+
+      stm dec c (restartOp c (crashAfter c.roller c.file k d)).disk := by
+  have h := (C08_restart c dec (crashAfter c.roller c.file k d) hfa).2
+  rw [hm] at h
+  rw [h]
+  exact flat_suffix (crash_sandwich hinj hfa dec hdec hc k d).2
+
+/-- and is false for `append(false)`: the restarted appender truncates the active file, which after
+a death before the final move still holds the chunk the completed rotation would archive (known
+finding `C08/truncate-restart-after-interrupted-roll`; witness: window of one, active file `[1]`,
+death before the only step) -/
+theorem C08_truncate_restart_loses_interrupted_chunk : ¬ C08_restart_after_interrupted_statement := by
+  intro h
+  have := h (wCfg false) ⟨[(wFile, [1])]⟩ 0 rfl (wNamesInj false) (wFileApart false) (by decide) rfl
+  revert this
+  decide
 
 /-! ### the `background_rotation` feature: a crash between the two phases -/
 
